@@ -699,4 +699,61 @@ theorem engUnary_reuse_iter' (st : St) (g : UnF) (tc kt : List String) (strict :
     rw [hv3 m hmem, cellD_of_some (hv2 k m j hm hj)]
   · intro b' k' hne'
     rw [hf3 _ _ (Or.inl hne'), hf2 _ _ (Or.inl hne')]
+
+theorem eOpIterIncr_VV (st : St) (a b incr : Win) (f fv : BinF) (ia ib ik : ItS) (ha : a.len ≠ 1) (hb : b.len ≠ 1) :
+    eOpIterIncr st a b incr f ia ib ik fv = kIter3VV st a b incr f accAdd ia ib ik := by
+  simp [eOpIterIncr, isSc, ha, hb]
+
+/-- unfolding: arithmetic with an increment tensor on the iterator path (no operand shares memory with it) -/
+theorem engArithVV_iter_incr (st : St) (op : String) (tc : List String) (a b r : Dense) (hc : BinOK tc a b)
+    (hk : (kernelTypes op).contains a.dt = true)
+    (hr : ReuseFits r a.shape a.dt a.ap.o.col)
+    (hu : (a.requiresIterator || b.requiresIterator || r.requiresIterator || !sameOrd a b ||
+      (!sameOrd a r || !sameOrd b r)) = true)
+    (hma : a.mask = none) (hmb : b.mask = none) (hmr : r.mask = none)
+    (hsa : sharesMemory a r = false) (hsb : sharesMemory b r = false)
+    (hla : a.win.len ≠ 1) (hlb : b.win.len ≠ 1) :
+    engArithVV st op tc a b { incr := some r } = (do
+      let s ← kIter3VV st a.win b.win r.win (fun x y => .app2 op x y) accAdd (a.offsets.map (·, true))
+        (b.offsets.map (·, true)) (r.offsets.map (·, true))
+      pure ⟨s, some r, .reuse⟩) := by
+  have hnr : incrRefused a.win b.win r.win = false := by simp [incrRefused, isSc, hla, hlb]
+  unfold engArithVV
+  simp only [hc.ta, hc.tb, hc.ne, hc.sh, hfo_incr _ _ _ _ _ _ hr, prepAliasVV_sep _ _ _ _ hsa hsb, hk, hu, hnr,
+    itStream_nomask _ _ hma, itStream_nomask _ _ hmb, itStream_nomask _ _ hmr, eOpIterIncr_VV _ _ _ _ _ _ _ _ _ hla hlb,
+    bind, Except.bind, pure, Except.pure,
+    Bool.not_true, Bool.false_eq_true, if_false, Bool.or_false, Bool.and_false, Bool.not_false,
+    Bool.and_true, if_true, Bool.false_and, Bool.true_and, Bool.or_self, Bool.false_or, Bool.true_or]
+
+/-- **`WithIncr(r)` on the iterator path**: at every position `k` of the logical order, `r`'s cell receives
+    `+ (a op b)` of the operands' elements at `k`; nothing outside `r`'s buffer changes -/
+theorem engArithVV_incr_iter' (st : St) (op : String) (tc : List String) (a b r : Dense) (hc : BinOK tc a b)
+    (hk : (kernelTypes op).contains a.dt = true)
+    (hr : ReuseFits r a.shape a.dt a.ap.o.col)
+    (hu : (a.requiresIterator || b.requiresIterator || r.requiresIterator || !sameOrd a b ||
+      (!sameOrd a r || !sameOrd b r)) = true)
+    (hma : a.mask = none) (hmb : b.mask = none) (hmr : r.mask = none)
+    (hna : a.win.buf ≠ r.win.buf) (hnb : b.win.buf ≠ r.win.buf)
+    (hla : a.win.len ≠ 1) (hlb : b.win.len ≠ 1)
+    (hoa : ∀ i ∈ a.offsets, 0 ≤ i ∧ i < (a.win.len : Int)) (hob : ∀ j ∈ b.offsets, 0 ≤ j ∧ j < (b.win.len : Int))
+    (hor : ∀ m ∈ r.offsets, 0 ≤ m ∧ m < (r.win.len : Int)) (hnd : r.offsets.Nodup)
+    (hA : InBuf st a.win.buf a.win.off a.win.len) (hB : InBuf st b.win.buf b.win.off b.win.len)
+    (hR : InBuf st r.win.buf r.win.off r.win.len) :
+    ∃ st', engArithVV st op tc a b { incr := some r } = .ok ⟨st', some r, .reuse⟩ ∧ st'.mheap = st.mheap ∧
+      (∀ (k : Nat) m i j, r.offsets[k]? = some m → a.offsets[k]? = some i → b.offsets[k]? = some j →
+        cell st' r.win.buf (r.win.off + m.toNat) =
+          some (accAdd (cellD st r.win.buf (r.win.off + m.toNat))
+            (.app2 op (cellD st a.win.buf (a.win.off + i.toNat)) (cellD st b.win.buf (b.win.off + j.toNat))))) ∧
+      (∀ b' k', b' ≠ r.win.buf → cell st' b' k' = cell st b' k') := by
+  rw [engArithVV_iter_incr st op tc a b r hc hk hr hu hma hmb hmr (sharesMemory_of_buf_ne hna)
+    (sharesMemory_of_buf_ne hnb) hla hlb]
+  obtain ⟨s2, h2, hm2, _, hv2, hf2⟩ := kIter3VV_spec st a.win b.win r.win (fun x y => .app2 op x y) accAdd
+    (a.offsets.map (·, true)) (b.offsets.map (·, true)) (r.offsets.map (·, true)) hna hnb
+    (inRange_map_true hoa) (inRange_map_true hob) (inRange_map_true hor) (by rw [map_true_fst]; exact hnd)
+    hA.has hB.has hR.has
+  refine ⟨s2, by simp only [h2, bind, Except.bind]; rfl, hm2, ?_, ?_⟩
+  · intro k m i j hm hi hj
+    exact hv2 k i true j true m true (getElem?_map_true hi) (getElem?_map_true hj) (getElem?_map_true hm) rfl rfl rfl
+  · intro b' k' hne
+    exact hf2 _ _ (Or.inl hne)
 end TM
